@@ -93,14 +93,18 @@ type RunDesc struct {
 	WorldReps []RepSpec `json:"world_reps,omitempty"`
 	Tasks     [][]Op    `json:"tasks"`
 	// replay files only
-	Pair       *RunDesc `json:"pair,omitempty"`  // C15 cross-process findings: a second history, executed in its own process
-	Build      string   `json:"build,omitempty"` // which build found it: "", "race", "race-stockpool"
-	Expect     string   `json:"expect,omitempty"`
-	Reproduced string   `json:"reproduced,omitempty"`
-	Note       string   `json:"note,omitempty"`
-	Minimised  bool     `json:"minimised,omitempty"`
-	OrigOps    int      `json:"orig_ops,omitempty"`
-	OrigSw     int      `json:"orig_switches,omitempty"`
+	Pair  *RunDesc `json:"pair,omitempty"`  // C15 cross-process findings: a second history, executed in its own process
+	Build string   `json:"build,omitempty"` // which build found it: "", "race", "race-stockpool"
+	// PrefixFrom: the violation only shows after earlier runs of the same worker
+	// process; replay first executes runs PrefixFrom..RunIndex-1 (regenerated from
+	// the seed), then this description.
+	PrefixFrom *uint64 `json:"prefix_from,omitempty"`
+	Expect     string  `json:"expect,omitempty"`
+	Reproduced string  `json:"reproduced,omitempty"`
+	Note       string  `json:"note,omitempty"`
+	Minimised  bool    `json:"minimised,omitempty"`
+	OrigOps    int     `json:"orig_ops,omitempty"`
+	OrigSw     int     `json:"orig_switches,omitempty"`
 }
 
 func (d *RunDesc) nOps() int {
